@@ -20,7 +20,7 @@ from . import coqlit as L
 from .core import Relation, err_kind
 
 PROP = "C13"
-CLAIMED = False
+CLAIMED = True
 COQ_MODULES = ["GenoTable", "C13_Model", "C13_Check", "C13_Proofs", "C13_Sound"]
 PROPERTY_MODULE = "C13_Property"
 ALLOWED_AXIOMS = []
